@@ -472,6 +472,8 @@ impl HCtx {
                 let preps: Vec<Prepared> = reqs.iter().map(|r| { let t: Vec<&str> = r.iter().map(|s| s.as_str()).collect(); self.build(&t[1..]) }).collect();
                 let web = self.web.as_ref().unwrap().clone();
                 let now = chrono::Utc::now().timestamp();
+                self.l1.out.push(format!("OP mark ileave {}", preps.len()));
+                self.l1.out.push("R mark".into());
                 let res = run_interleaved(web, &preps);
                 match res {
                     Ok(v) => {
